@@ -80,7 +80,11 @@ def worker(args):
             res.inconclusive.append('harness error in shard %r: %s' % (
                 spec.get('name', spec), traceback.format_exc()[-1500:]))
     common.jdump(res.to_json(), args.out)
-    return 0
+    # a library change under test may leave non-daemon provider threads behind: they must not
+    # keep the shard (and with it the verdict it has just written) from being collected
+    sys.stdout.flush()
+    sys.stderr.flush()
+    os._exit(0)
 
 
 def run_shards(prop, mod, tier, seed, specs):
@@ -131,9 +135,12 @@ def run_shards(prop, mod, tier, seed, specs):
                 elif time.time() - started > timeout:
                     proc.kill()
                     proc.wait()
-                    res = Result()
-                    res.inconclusive.append('shard %d exceeded the %ds watchdog' % (i, timeout))
-                    total.merge(res)
+                    if os.path.exists(out):
+                        finish(*item)          # it had finished its work and hung on exit
+                    else:
+                        res = Result()
+                        res.inconclusive.append('shard %d exceeded the %ds watchdog' % (i, timeout))
+                        total.merge(res)
                 else:
                     still.append(item)
             running = still
@@ -289,4 +296,7 @@ def main(argv=None):
 
 
 if __name__ == '__main__':
-    sys.exit(main())
+    code = main()
+    sys.stdout.flush()
+    sys.stderr.flush()
+    os._exit(code or 0)
